@@ -1077,6 +1077,9 @@ func errorsIs(in *Interp, st *State, fn *ssa.Function, args []Value, retTo ssa.V
 				if in.valueEq(st, err.V, target.V).IsTrue() {
 					return in.tf.True(), true
 				}
+			} else if sv, isStruct := err.V.(Struct); isStruct && len(sv.F) == 0 {
+				// sentinel errors of an empty struct type (net.ErrClosed is internal/poll.errNetClosing{})
+				return in.tf.True(), true
 			}
 		}
 		// unwrap *fmt.wrapError
